@@ -515,6 +515,25 @@ func (h *Hub) registerConnection(connection api.ShipConnectionInterface) {
 func (h *Hub) registerConnectionPreventingDouble(connection api.ShipConnectionInterface, incomingRequest bool) {
 	remoteSKI := connection.RemoteSKI()
 
+	// the handshake is already running, so the connection can already be closed again
+	// (e.g. it got rejected by the remote service) and its closing was already reported.
+	// Such a connection must not stay registered, it would block the SKI for ever
+	defer func() {
+		dataHandler := connection.DataHandler()
+		if dataHandler == nil {
+			return
+		}
+		if isClosed, _ := dataHandler.IsDataConnectionClosed(); !isClosed {
+			return
+		}
+
+		h.muxCon.Lock()
+		if existingC, exists := h.connections[remoteSKI]; exists && existingC == connection {
+			delete(h.connections, remoteSKI)
+		}
+		h.muxCon.Unlock()
+	}()
+
 	h.muxCon.Lock()
 
 	existingC, exists := h.connections[remoteSKI]
